@@ -253,7 +253,7 @@ def call_builtin(eng, p, args, kwargs, fr, node):
         ln = lens[0]
         for l in lens[1:]:
             ln = z3.If(l < ln, l, ln)
-        return SV("iter", IterSpec(z3.simplify(ln), lambda i: mk_tuple([s.elem(i) for s in specs]), desc="zip"),
+        return SV("iter", IterSpec(z3.simplify(ln), lambda i: mk_tuple([s.elem(i) for s in specs]), desc="zip", oneshot=True),
                   meta={"zip_of": args})
     if name == "enumerate":
         from .exec import IterSpec
@@ -263,7 +263,7 @@ def call_builtin(eng, p, args, kwargs, fr, node):
             sp2 = IterSpec(sp.length, None, lazy=sp.lazy, desc="enumerate-lazy")
             sp2.start = start
             return SV("iter", sp2, meta={"enum_start": start})
-        return SV("iter", IterSpec(sp.length, lambda i: mk_tuple([mk_int(start + i), sp.elem(i)]), desc="enumerate"))
+        return SV("iter", IterSpec(sp.length, lambda i: mk_tuple([mk_int(start + i), sp.elem(i)]), desc="enumerate", oneshot=True))
     if name == "range":
         from .exec import IterSpec
         if len(args) == 1:
